@@ -149,6 +149,7 @@ func sortStrings(a []string) {
 func runC06(c *Ctx) {
 	m, r := c.M, c.R
 	c.St.Rule = "programs of object operations over a heap of objects/lists with keys from a pool (empty, '.', '#', quotes, non-ASCII, repeated within one Set); non-trivial = at least 3 operations; distinct by program"
+	c.rawBytes("C06")
 	// exhaustive: every sequence of k operations from a menu over two objects sharing a nested list
 	type op func(o1, o2, l string)
 	menu := []op{
@@ -298,6 +299,7 @@ func runC08(c *Ctx) {
 		}
 	}
 	c.derivedCorners("C08")
+	c.rawBytes("C08")
 	c.growShrink()
 	c.sharedBoxes()
 	for i := 0; i < c.N(400, 6000); i++ {
@@ -615,6 +617,7 @@ func (c *Ctx) deepChains() {
 func runC09(c *Ctx) {
 	m, r := c.M, c.R
 	c.St.Rule = "receivers in every growth history x every deriving operation applied twice x every mutator applied to receiver, argument and both results in turn, all containers snapshotted after each step; non-trivial always (>= 6 operations); distinct by (history, deriving op, mutator)"
+	c.rawBytes("C09")
 	c.emptyReceivers()
 	c.omoList("C09")
 	c.omoObj("C09")
@@ -798,6 +801,7 @@ func probeObj(m *Machine, o string, k string) {
 func runC12(c *Ctx) {
 	m, r := c.M, c.R
 	c.St.Rule = "Go values of every supported dynamic type (all integer widths at their boundaries, float32 classes, every map/slice flavour, nesting) and unsupported types, through every insertion entry point, observed through Get, TypeOf and all six typed getters; non-trivial = not a canonical scalar; distinct by (value, entry point)"
+	c.rawBytes("C12")
 	var vals []*GV
 	for _, w := range []string{"i8", "i16", "i32", "i64", "u", "u8", "u16", "u32", "u64"} {
 		vals = append(vals, widthValues(w)...)
@@ -954,6 +958,7 @@ func runC13(c *Ctx) {
 	c.omoList("C13")
 	c.omoObj("C13")
 	c.derivedCorners("C13")
+	c.rawBytes("C13")
 	c.nativeAfterDerivations()
 	c.longLists("C13")
 	opts := &TreeOpts{MaxDepth: 5, MaxWidth: 5}
@@ -1221,6 +1226,7 @@ func runC14(c *Ctx) {
 func runC17(c *Ctx) {
 	m, r := c.M, c.R
 	c.St.Rule = "homogeneous string/int/float lists of every length 1..9 over a 3-value alphabet exhaustively, long random lists with extreme values, Reverse on mixed lists of even and odd length; non-trivial = length >= 2; distinct by list"
+	c.rawBytes("C17")
 	c.omoList("C17")
 	alph := map[byte][]*GV{
 		'i': {gvInt(-1), gvInt(0), gvInt(7)},
